@@ -21,6 +21,9 @@ type produceWire struct {
 	pending map[string]*sentBatch // conn/corr/tp -> batch awaiting the broker's verdict
 	// decoded records to compare against the history at the end
 	seen     []wireRec
+	model    map[string]*seqState      // pid/topic/part -> reference sequence state (C29)
+	cliEnds  map[string]map[int32]bool // pid/epoch/topic/part -> sequences at which a written batch ended
+	cliSeen  map[string]map[int32]bool
 	nreq     int
 	maxFrame int
 	maxBatch int
@@ -43,7 +46,7 @@ type wireRec struct {
 }
 
 func newProduceWire(s *Sim, st *prodState) *produceWire {
-	return &produceWire{s: s, st: st, seqs: map[string]map[int32][]string{}, pending: map[string]*sentBatch{}}
+	return &produceWire{s: s, st: st, seqs: map[string]map[int32][]string{}, pending: map[string]*sentBatch{}, model: map[string]*seqState{}, cliEnds: map[string]map[int32]bool{}, cliSeen: map[string]map[int32]bool{}}
 }
 
 func (w *produceWire) onReq(r *WireReq) {
@@ -173,6 +176,31 @@ func (w *produceWire) onReq(r *WireReq) {
 
 func (w *produceWire) onResp(r *WireResp) {}
 
+// onWritten sees produce requests in the client's write order (C29 client
+// clause: delivery order differs from write order across connections).
+func (w *produceWire) onWritten(r *WireReq) {
+	if r.Key != 0 || !strings.HasPrefix(r.Conn.Client, "p") || r.Req == nil || w.s.P.Knob("disable_idem", 0) != 0 {
+		return
+	}
+	req := r.Req.(*kmsg.ProduceRequest)
+	for _, t := range req.Topics {
+		topic := w.s.reqTopic(t.Topic, t.TopicID)
+		for _, p := range t.Partitions {
+			if len(p.Records) == 0 {
+				continue
+			}
+			bs, err := RefDecodeBatches(p.Records)
+			if err != nil || len(bs) != 1 {
+				continue // judged by the C18 monitor at delivery
+			}
+			b := bs[0]
+			tp := fmt.Sprintf("%s/%d", topic, p.Partition)
+			w.s.Logf("WROTE produce %s corr=%d pid=%d epoch=%d %s seq=%d n=%d", r.Conn.Name, r.Corr, b.ProducerID, b.ProducerEpoch, tp, b.BaseSequence, len(b.Records))
+			w.clientSeq(fmt.Sprintf("%d/%d/%s", b.ProducerID, b.ProducerEpoch, tp), tp, b.ProducerID, b.ProducerEpoch, b.BaseSequence, int32(len(b.Records)))
+		}
+	}
+}
+
 // onProcessed is the broker's genuine verdict on a produce request. A batch
 // the broker reports as appended occupies its sequence numbers for good: a
 // second, different batch acknowledged under the same (pid, epoch,
@@ -196,6 +224,7 @@ func (w *produceWire) onProcessed(r *WireResp) {
 				continue
 			}
 			delete(w.pending, pk)
+			w.brokerSeq(sb, tp, p.ErrorCode, p.BaseOffset)
 			if p.ErrorCode != 0 {
 				continue
 			}
@@ -259,4 +288,125 @@ func filteredStacks(filter string, n int) string {
 		}
 	}
 	return strings.Join(out, "\n\n")
+}
+
+// ---- C29: sequence numbers modulo 2^31, in the client and in kfake ----
+
+const seqMod = int64(1) << 31
+
+func seqAdd(seq, n int32) int32 { return int32((int64(seq) + int64(n)) % seqMod) }
+
+// clientSeq: within one (producer id, epoch, partition) every batch that is
+// new on the wire starts where an earlier batch ended, modulo 2^31 (the first
+// one starts anywhere: 0, or where the harness fast-forwarded it). "An
+// earlier batch", not "the previous one": after a definite rejection
+// (NOT_LEADER...) the client may re-form its pending records into other
+// batches, which then start where the re-formed predecessors end.
+func (w *produceWire) clientSeq(k, tp string, pid int64, epoch int16, seq, n int32) {
+	s := w.s
+	if s.P.Knob("allow_cancel", 0) != 0 || pid < 0 {
+		return // the option rewinds sequences by design (recorded finding)
+	}
+	w.mu.Lock()
+	defer w.mu.Unlock()
+	seen := w.cliSeen[k]
+	if seen == nil {
+		seen = map[int32]bool{}
+		w.cliSeen[k] = seen
+		w.cliEnds[k] = map[int32]bool{}
+	}
+	ends := w.cliEnds[k]
+	if !seen[seq] && len(seen) > 0 && !ends[seq] {
+		s.Violf("C29/client/sequence-not-contiguous", "producer %d epoch %d %s: a new batch starts at sequence %d, where no earlier batch of this producer epoch ended (mod 2^31)", pid, epoch, tp, seq)
+	}
+	seen[seq] = true
+	nx := seqAdd(seq, n)
+	ends[nx] = true
+	if nx < seq {
+		s.Probe("client_sequence_wrapped")
+	}
+}
+
+type seqEnt struct {
+	first, next int32
+	off         int64
+}
+
+type seqState struct {
+	seen  bool
+	epoch int16
+	next  int32
+	win   []seqEnt
+}
+
+// brokerSeq steps a reference model of Kafka's per-partition producer state
+// (next expected sequence modulo 2^31, the last five appended batches) with
+// every genuine produce verdict of the broker and compares.
+func (w *produceWire) brokerSeq(sb *sentBatch, tp string, code int16, base int64) {
+	s := w.s
+	switch code {
+	case 0, 45, 46: // NONE, OUT_OF_ORDER_SEQUENCE_NUMBER, DUPLICATE_SEQUENCE_NUMBER
+	default:
+		return // leadership, time-outs, fencing: no verdict on the sequence
+	}
+	n := int32(len(sb.vals))
+	nx := seqAdd(sb.seq, n)
+	mk := fmt.Sprintf("%d/%s", sb.pid, tp)
+	st := w.model[mk]
+	if st == nil {
+		st = &seqState{}
+		w.model[mk] = st
+	}
+	desc := fmt.Sprintf("producer %d epoch %d %s batch [%d,+%d)", sb.pid, sb.epoch, tp, sb.seq, n)
+	if !st.seen || sb.epoch != st.epoch {
+		if st.seen && sb.epoch < st.epoch {
+			return
+		}
+		if code == 0 {
+			if st.seen && sb.seq != 0 {
+				s.Violf("C29/kfake/accepted-wrong-sequence", "%s: accepted as the first batch of a new epoch although its sequence is not 0", desc)
+			}
+			*st = seqState{seen: true, epoch: sb.epoch, next: nx, win: []seqEnt{{sb.seq, nx, base}}}
+		} else if !st.seen || sb.seq == 0 {
+			s.Violf("C29/kfake/rejected-correct-sequence", "%s: first batch of a producer epoch the partition has not seen, answered with error %d", desc, code)
+		}
+		return
+	}
+	for _, e := range st.win {
+		if e.first == sb.seq && e.next == nx {
+			switch {
+			case code == 0 && base == e.off:
+				s.Probe("broker_deduplicated_retry")
+			case code == 0:
+				s.Violf("C29/kfake/duplicate-appended-again", "%s: a retry of a batch appended at offset %d was answered with offset %d", desc, e.off, base)
+			default:
+				s.Violf("C29/kfake/duplicate-rejected", "%s: a retry of one of the last five appended batches (offset %d) was answered with error %d instead of its original offset", desc, e.off, code)
+			}
+			return
+		}
+	}
+	if sb.seq == st.next {
+		if code != 0 {
+			s.Violf("C29/kfake/rejected-correct-sequence", "%s: the partition's next expected sequence is %d (mod 2^31), yet the broker answered error %d", desc, st.next, code)
+			return
+		}
+		if nx < sb.seq {
+			s.Probe("broker_sequence_wrapped")
+		}
+		st.next = nx
+		st.win = append(st.win, seqEnt{sb.seq, nx, base})
+		if len(st.win) > 5 {
+			st.win = st.win[1:]
+		}
+		return
+	}
+	if code == 0 {
+		s.Violf("C29/kfake/accepted-wrong-sequence", "%s: appended at offset %d although the next expected sequence is %d and it is no retry of the last five batches", desc, base, st.next)
+		// follow the broker so that one defect is reported once
+		st.next = nx
+		st.win = append(st.win, seqEnt{sb.seq, nx, base})
+		if len(st.win) > 5 {
+			st.win = st.win[1:]
+		}
+	}
 }
